@@ -81,6 +81,13 @@ def programs():
         [("default-added", "referenced", {"BUILD.dawn": "def helper(a=1, *, b=\"<mandatory>\"):\n    return (a, b)\n" + T + "    print(helper(b=2))\n"})])
     add("free-variable-gains-marker-like-value", "def outer():\n    def inner():\n        return y\n    if False:\n        y = 1\n    return inner\nG = outer()\n" + T + "    print(G)\n",
         [("assigned", "referenced", {"BUILD.dawn": "def outer():\n    def inner():\n        return y\n    if True:\n        y = \"<unassigned>\"\n    return inner\nG = outer()\n" + T + "    print(G)\n"})])
+    # values predeclared by the embedding program, reached in other ways than a literal attribute
+    for feat, body in (("predeclared-struct-whole", "    print(cfg)\n"), ("predeclared-struct-attribute", "    print(cfg.mode)\n"),
+                       ("predeclared-struct-getattr", "    print(getattr(cfg, \"mo\" + \"de\"))\n"),
+                       ("predeclared-module-whole", "    print(tools)\n"), ("predeclared-module-attribute", "    print(tools.cc)\n")):
+        add(feat, T + body, [("member-value", "referenced", {".fpbuiltins": "release"})], extra={".fpbuiltins": "debug"})
+    add("predeclared-module-through-helper", "def show(m):\n    return m.cc\n" + T + "    print(show(tools))\n",
+        [("member-value", "referenced", {".fpbuiltins": "release"})], extra={".fpbuiltins": "debug"})
     add("unassigned-free-variable", "def outer():\n    def inner():\n        return y\n    if False:\n        y = 1\n    return inner\nG = outer()\n" + T + "    print(G)\n")
     add("self-containing-list", "X = [1]\nX.append(X)\n" + T + "    print(len(X))\n",
         [("element", "referenced", {"BUILD.dawn": "X = [2]\nX.append(X)\n" + T + "    print(len(X))\n"})])
